@@ -7,7 +7,7 @@ TB = "trusted: Coq 8.16.1 kernel; extraction (ExtrOcamlBasic only); OCaml/Go/Pyt
 CLAIMS = {
  "C01": ("other", "Coq theorems over the Writer and Reader models, for every well-formed value forest of any depth: the binary Writer's output decodes under the specification decoder to exactly the forest (C04_binary) and the binary Reader model's full traversal of that output is exactly the forest's trace, local symbol table included (C01bin); finite-universe text round trip (tw_tdecode_universe); K3/K2/K4/K5 tie the four models to the real Writer/Reader on the same runs; oracle: real write then real read back = the forest's trace in all three writer modes", "§7 C01"),
  "C02": ("other", "29 Coq theorems over the text reader model (Text/Spell*.v, Props/C02.v): spelling freedom as inductive relations independent of the reader (whitespace/comments, underscore/radix/exponent number forms, every escape, short and long strings, symbols, base64 with inner whitespace, clobs, timestamps) and, for ALL spellings, the reader model returns the denoted value; lifted to the full traversal of streams of nested values (c02_traverse_stream_partial: the omitted stream-level spellings are listed in DESIGN.md §9); K5 ties the reader model to the real Reader; oracle on the real code: independent Coq specification decoder SpecText.tdecode + spec-derived printer with randomised spellings, the real Reader's trace of every rendering equals the forest's", "§7 C02"),
- "C03": ("other", "K2: binary reader model vs real Reader on encodings from a spec-derived encoder with randomised representation choices; oracle: trace equals the forest's", "§7 C03"),
+ "C03": ("other", "Coq theorem C03bin over the reader model and the independent specification decoder: for every byte string SpecBin.sdecode accepts and that lies within the reader's stated limits (within_limits: VarUInt <= 10 octets, decimal exponent in int32, symbol UInt <= 8 octets, pad field IDs defined, timestamp bodies accepted, no top-level $ion_symbol_table::null.struct, symbol tables of the shapes listed in Props/C03bin.v), the reader model's full traversal yields exactly the values the specification denotes, for all representation freedoms (NOP pads, non-minimal VarUInts, ordered structs, annotation wrappers, several symbol tables, version markers); K2 ties the reader model to the real Reader on encodings from a spec-derived encoder with randomised representation choices plus fixed documents at each limit; oracle: the real trace equals the forest's", "§7 C03"),
  "C04": ("other", "binary: K3 correspondence of the Writer model with the real Writer + the real Writer's bytes judged by the extracted independent decoder SpecBin.sdecode; Coq theorems: every tag declares exactly the bytes buffered under it, for every reachable state of every call sequence; text: finite quoting/escape tables exhaustively + forests (K4)", "§7 C04"),
  "C05": ("other", "documented copy loop run by the real code from binary/text sources with local symbol tables into text/pretty/binary Writers; oracle: copy reads back as the source (symbols by text), binary copies accepted by the independent decoder; Coq: the loop's call sequence denotes the observed forest for any Writer; the binary Writer model resolves tokens by text", "§7 C05"),
  "C06": ("other", "Coq theorems: the binary reader model never panics, always returns within fuel linear in the input and allocates at most input + 64 KiB, for every input and every navigation program (timestamp body parser discharged); the text reader model never panics for every input and program; K2/K5 tie the models to the real readers; on the real code: hostile inputs (extreme lengths and exponents, truncations, deep nesting) through traversal, skip/step-out programs, Decoder.Decode and Unmarshal into 18 target kinds in an isolated worker; outcome classes panic/fatal/timeout/over-allocation are violations", "§7 C06"),
